@@ -352,6 +352,28 @@ CATALOGUE['C08'] += [
   (S, None, 'camxfiles/uamiv/Memmap.py', "        tflag = ConvertCAMxTime(self.__memmap__['DATE']['BDATE'],\n                                self.__memmap__['DATE']['BTIME'],", "        datehdr = self.__memmap__['DATE']\n        tflag = ConvertCAMxTime(datehdr['BDATE'], datehdr['BTIME'],"),
 ]
 
+# ---- generic baseline-relative rules (pncstatic/generic.py)
+CATALOGUE['C04'] += [
+  (F, 'R-CALLED', _F, "                if dv.isunlimited():\n                    stackdim = dk\n                    break", "                if dv.isunlimited:\n                    stackdim = dk\n                    break"),
+  (F, 'R-PARAMUSED', '_getreader.py', "    return file1.stack(files[1:], stackdim=stackdim)", "    return file1.stack(files[1:])"),
+]
+CATALOGUE['C18'] += [
+  (F, 'R-ONESHOT', 'geoschemfiles/_bpch.py', "    for ti, (tau0, tau1) in enumerate(ttz):", "    ntimes = len(list(ttz))\n    for ti, (tau0, tau1) in enumerate(ttz):"),
+]
+CATALOGUE['C16'] += [
+  (F, 'R-PARAMUSED', _F, ("            fidx = np.interp(val, dimevals, idx, left=left, right=right)", "            fidx = np.interp(val, dimvals, idx, left=left, right=right)"),
+   ("            fidx = np.interp(val, dimevals, idx, right=right)", "            fidx = np.interp(val, dimvals, idx, right=right)")),
+  (F, 'R-NOSTATE', _F, ("        method='nearest', bounds='warn', left=None, right=None, clean='mask'\n    ):", "        bounds_keys = [dim + '_bounds', dim + '_bnds']"),
+   ("        method='nearest', bounds='warn', left=None, right=None, clean='mask',\n        _bk=[]\n    ):", "        _bk += [dim + '_bounds', dim + '_bnds']\n        bounds_keys = _bk")),
+]
+
+CATALOGUE['C18'] += [
+  (F, 'R-SIBLING', 'geoschemfiles/_newbpch.py', "            self._tau0 = tmpdata['header']['tau0']\n            self._tau1 = tmpdata['header']['tau1']", "            self._tau0 = tmpdata['header']['tau0']\n            self._tau1 = tmpdata['header']['tau0']"),
+]
+CATALOGUE['C19'] += [
+  (F, 'R-MODSTATE', _FFI, ("class ffi1001(PseudoNetCDFFile):", "        lastattr = None\n        PseudoNetCDFFile.__init__(self)"), ("_seen = []\n\n\nclass ffi1001(PseudoNetCDFFile):", "        lastattr = None\n        _seen.append(path)\n        PseudoNetCDFFile.__init__(self)")),
+]
+
 
 def _findings(prop, overlay):
     warnings.simplefilter('ignore')
@@ -360,6 +382,8 @@ def _findings(prop, overlay):
     ctx = report.Ctx(prop, 'quick', src, quiet=True)
     try:
         mod.run(ctx)
+        from . import generic
+        generic.run(ctx)
     except engine.AnalysisError as e:
         return None, str(e)
     return set((f.rule, f.relpath, f.func, f.stmt) for f in ctx.findings), None
